@@ -119,3 +119,18 @@ def callee_names(ctx: Ctx, f: FuncInfo, call: ast.Call, V: str | None = None) ->
         elif t.kind == "ctor" and t.cls is not None:
             out.add(t.cls.fq)
     return out
+
+
+def prune_diff(ctx: Ctx, chk: Check, entries: list[tuple[FuncInfo, str | None]]) -> None:
+    """Thorough tier: the same escape analysis without three-valued pruning; escapes that exist only then are listed."""
+    from ..eea import EEA
+
+    e1 = ctx.eea(True)
+    e2 = EEA(ctx.I, prune=False)
+    only = []
+    for f, V in entries:
+        a = set(e1.escapes_of(f, V))
+        for k in e2.escapes_of(f, V):
+            if k not in a:
+                only.append(f"{short(k[0])} at {k[1].loc()} ({k[1].text[:50]}) from {f.qualname}@{V}")
+    chk.notes["escapes_only_without_pruning"] = {"count": len(only), "items": sorted(set(only))[:20], "frames_analysed_without_pruning": e2.frames_analysed}
